@@ -136,3 +136,19 @@ Proof.
 Qed.
 Eval vm_compute in (map tx (toksP (getop SBar) [Y] ++ optok (getop STilde2) :: toksP (getop SBar) [rhs1; rhs2])).
 Print Assumptions two_sided_example.
+
+(* ---------- instantiation of the generic theorems for the default operator table ---------- *)
+Theorem parts_complete_default fixed ps :
+  ps <> [] -> Forall (part_ok fl (getop SBar)) ps ->
+  to_ast fixed fl (toksP (getop SBar) ps) = inl (Some (barsA (getop SBar) ps)).
+Proof.
+  apply (parts_complete fixed fl (getop SBar) eq_refl eq_refl eq_refl eq_refl eq_refl ltac:(vm_compute; discriminate) eq_refl).
+Qed.
+Theorem two_sided_complete_default fixed ls rs :
+  ls <> [] -> rs <> [] -> Forall (part_ok fl (getop SBar)) ls -> Forall (part_ok fl (getop SBar)) rs ->
+  to_ast fixed fl (toksP (getop SBar) ls ++ optok (getop STilde2) :: toksP (getop SBar) rs)
+  = inl (Some (ANode (getop STilde2) [barsA (getop SBar) ls; barsA (getop SBar) rs])).
+Proof.
+  apply (two_sided_complete fixed fl (getop SBar) eq_refl eq_refl eq_refl eq_refl eq_refl ltac:(vm_compute; discriminate) eq_refl
+           (getop STilde2) (ex_intro _ _ eq_refl) eq_refl eq_refl eq_refl eq_refl eq_refl eq_refl).
+Qed.
